@@ -34,6 +34,8 @@ func init() {
 }
 
 func runC05(w *World, r *Report) {
+	hrParseHeaders(w, r, "R5")
+	hrExtractKeyValuePair(w, r, "R2")
 	// R1
 	if bf := w.Fn(pkgFlow, "flowBuilder.buildFlow"); bf == nil {
 		r.Undec("R1", "buildFlow", token.NoPos, "function not found")
